@@ -6,6 +6,10 @@
 (* offset stays.  File sizes go up to 2^32 - 1 and TLC integers are 32-bit  *)
 (* signed, so numbers are pairs <<h, l>> standing for h * 65536 + l with    *)
 (* 0 <= l < 65536 (h may be negative).                                      *)
+(* The same arithmetic says what a read and a write do to offset and length *)
+(* at the far end of a file: a file holds at most 2^32 - 1 bytes, a read    *)
+(* stops at the end of the file, and a write that is reported as done is    *)
+(* done completely - what does not fit under the limit has to be refused.   *)
 (***************************************************************************)
 EXTENDS Integers
 Norm(p) == <<p[1] + p[2] \div 65536, p[2] % 65536>>
@@ -17,4 +21,16 @@ Le(a, b) == a[1] < b[1] \/ (a[1] = b[1] /\ a[2] <= b[2])
 SeekStart(len, off, x) == IF Le(x, len) THEN [ok |-> TRUE, off |-> x] ELSE [ok |-> FALSE, off |-> off]
 SeekEnd(len, off, x) == IF Le(x, len) THEN [ok |-> TRUE, off |-> Sub(len, x)] ELSE [ok |-> FALSE, off |-> off]
 SeekCur(len, off, d) == LET t == Add(off, d) IN IF ~Neg(t) /\ Le(t, len) THEN [ok |-> TRUE, off |-> t] ELSE [ok |-> FALSE, off |-> off]
+\* ------------------------------------------------------------------ reads and writes of n bytes (n < 2^31) at off
+MaxLen == <<65535, 65535>>
+Count(n) == Norm(<<0, n>>)
+Max2(a, b) == IF Le(a, b) THEN b ELSE a
+\* [cnt, off, eof]: a read delivers what lies between the offset and the end of the file, at most n bytes
+Left(len, off) == Sub(len, off)
+ReadAt(len, off, n) == LET want == IF Le(Count(n), Left(len, off)) THEN Count(n) ELSE Left(len, off)
+                       IN [cnt |-> want, off |-> Add(off, want), eof |-> Add(off, want) = len]
+\* a write fits when it ends at or below the largest length
+WriteFits(off, n) == Le(Add(off, Count(n)), MaxLen)
+\* [off, len] after a write that was reported as done
+WriteAt(len, off, n) == [off |-> Add(off, Count(n)), len |-> Max2(len, Add(off, Count(n)))]
 =============================================================================
